@@ -162,9 +162,9 @@ def is_logging_call(node: ast.AST) -> bool:
     if node.func.attr not in LOG_METHODS:
         return False
     recv = node.func.value
-    if isinstance(recv, ast.Attribute) and recv.attr in LOGGER_NAMES:
+    if isinstance(recv, ast.Attribute) and (recv.attr in LOGGER_NAMES or recv.attr.endswith('_logger')):
         return True
-    if isinstance(recv, ast.Name) and recv.id in LOGGER_NAMES:
+    if isinstance(recv, ast.Name) and (recv.id in LOGGER_NAMES or recv.id.endswith('_logger')):
         return True
     if isinstance(recv, ast.Call) and isinstance(recv.func, ast.Attribute) and recv.func.attr == 'getLogger':
         return True
@@ -817,6 +817,23 @@ class Executor:
         return names
 
     @staticmethod
+    def aug_only_names(nodes):
+        aug, plain = set(), set()
+        for b in nodes:
+            for n in ast.walk(b):
+                if isinstance(n, ast.AugAssign) and isinstance(n.target, ast.Name):
+                    aug.add(n.target.id)
+            for n in ast.walk(b):
+                if isinstance(n, ast.Name) and isinstance(n.ctx, (ast.Store, ast.Del)):
+                    parent_aug = False
+                    for m in ast.walk(b):
+                        if isinstance(m, ast.AugAssign) and m.target is n:
+                            parent_aug = True
+                    if not parent_aug:
+                        plain.add(n.id)
+        return aug - plain
+
+    @staticmethod
     def touches_heap(nodes):
         for b in nodes:
             for n in ast.walk(b):
@@ -828,8 +845,13 @@ class Executor:
 
     def havoc_loop_state(self, node, st: State, spec):
         kinds = {}
+        aug_only = self.aug_only_names(node.body + node.orelse)
+        aug_heap = False
         for nm in self.assigned_names(node.body + node.orelse):
             old = st.locals.get(nm)
+            if nm in aug_only and old is not None and old.kind == 'ref' and old.cls in ('bytearray', 'list'):
+                aug_heap = True     # x += y on a mutable container: same object, content changes
+                continue
             st.locals[nm] = vany(fresh(Val, nm), path=nm)
             if old is not None and old.kind in ('func', 'class', 'module', 'exccls'):
                 st.locals[nm] = old
@@ -850,7 +872,7 @@ class Executor:
             self.ctx.hooks.on_loop_havoc(self, st, node)
         hv = spec.havoc_heap if spec is not None and spec.havoc_heap is not None else None
         if hv is None:
-            if self.touches_heap(node.body + node.orelse):
+            if aug_heap or self.touches_heap(node.body + node.orelse):
                 st.havoc_heap()
         elif hv:
             st.havoc_arrays(hv)
@@ -873,13 +895,13 @@ class Executor:
         name = f'loop{ordn}'
         outs = []
         if spec is not None and spec.inv is not None:
-            env0 = {}
+            env0 = {'_entry': st}
             self.oblige(st, f'{name}.inv_entry', spec.inv(self, st, env0), kind='loop', info={'line': node.lineno})
         # arbitrary iteration
         h = st.fork()
         self.havoc_loop_state(node, h, spec)
         h.mark((node.lineno, 'loophead'))
-        env = {}
+        env = {'_entry': st}
         if spec is not None and spec.inv is not None:
             h.assume(spec.inv(self, h, env))
         var0 = spec.variant(self, h, env) if spec is not None and spec.variant is not None else None
@@ -960,7 +982,7 @@ class Executor:
         outs = []
         seq_info = models.iter_seq(self, st, it)   # (seq term | None, length term | None, elem_fn)
         if spec is not None and spec.inv is not None:
-            env0 = {'_k': z3.IntVal(0), '_seq': seq_info[0], '_n': seq_info[1]}
+            env0 = {'_k': z3.IntVal(0), '_seq': seq_info[0], '_n': seq_info[1], '_entry': st}
             self.oblige(st, f'{name}.inv_entry', spec.inv(self, st, env0), kind='loop', info={'line': node.lineno})
         h = st.fork()
         self.havoc_loop_state(node, h, spec)
@@ -971,7 +993,7 @@ class Executor:
         if n is None:
             n = fresh(IntS, '_n')
         h.assume(n >= 0)
-        env = {'_k': k, '_seq': seq_info[0], '_n': n}
+        env = {'_k': k, '_seq': seq_info[0], '_n': n, '_entry': st}
         if spec is not None and spec.inv is not None:
             h.assume(spec.inv(self, h, env))
         # exit: all items consumed
@@ -991,7 +1013,7 @@ class Executor:
                     if sig is None or sig[0] == 'cnt':
                         self.check_kind_stability(node, s2, name)
                         if spec is not None and spec.inv is not None:
-                            env2 = {'_k': k + 1, '_seq': seq_info[0], '_n': n}
+                            env2 = {'_k': k + 1, '_seq': seq_info[0], '_n': n, '_entry': st}
                             self.oblige(s2, f'{name}.inv_preserved', spec.inv(self, s2, env2), kind='loop',
                                         info={'line': node.lineno})
                     elif sig[0] == 'brk':
@@ -1242,6 +1264,18 @@ class Executor:
 
     # -- conditions (truthiness only)
     def ev_cond(self, node, st: State):
+        try:
+            return self._ev_cond(node, st)
+        except Unsupported as ex:
+            if not self.ctx.opaque_ok or self.contains_tracked_expr(node):
+                raise
+            self.ctx.unsupported_notes.append(f'line {getattr(node, "lineno", "?")}: {ex} -> opaque condition')
+            outs = []
+            for s, v in self.opaque_expr(node, st):
+                outs.append((s, v if isinstance(v, Raise) else fresh(BoolS, 'cond')))
+            return outs
+
+    def _ev_cond(self, node, st: State):
         t = type(node)
         if t is ast.BoolOp:
             is_and = isinstance(node.op, ast.And)
